@@ -3,7 +3,7 @@ from mirsym.harness import Check
 from . import scen
 from .C01 import ASSUME
 
-QUICK = ["catch_act", "catch_step", "catch_empty", "catch_nomatch_then_step", "catch_two_codes", "catch_outer_step_branch", "catch_none", "catch_all_and_code", "two_if"]
+QUICK = ["catch_act", "catch_step", "catch_empty", "catch_nomatch_then_step", "catch_two_codes", "catch_outer_step_branch", "catch_none", "catch_all_and_code", "two_if", "catch_nested_par", "catch_in_catch"]
 
 
 def main(tier, seed):
@@ -11,7 +11,7 @@ def main(tier, seed):
     jobs = []
     for n in QUICK:
         for pol in (("fifo", "lifo") if tier == "quick" else ("explore",)):
-            jobs.append(("props.flow", "run_scenario", (n, dict(policy=pol, k=0, error_script=True, oracles=("c06", "c01"), max_paths=400 if tier == "quick" else 5000,
+            jobs.append(("props.flow", "run_scenario", (n, dict(policy=pol, k=0, error_script=True, errors=2, oracles=("c06",), max_paths=400 if tier == "quick" else 5000,
                                                                  answer_choice=(tier != "quick"), seed=seed), "C06")))
     c.run_jobs(jobs)
     return c.finish(
